@@ -460,7 +460,7 @@ pub fn check_live(case: &LiveCase, info: &mut CaseInfo) -> Result<(), Fail> {
 pub fn run(ctx: &Ctx, rep: &mut Report) {
     let (n_b, n_l) = match ctx.tier {
         Tier::Quick => (160, 320),
-        Tier::Thorough => (640, 4_000),
+        Tier::Thorough => (1_200, 8_000),
     };
     run_prop(ctx, rep, "backup", backup_strategy(), n_b, 60, check_backup);
     run_prop(ctx, rep, "live-restore", live_strategy(), n_l, 200, check_live);
